@@ -1,6 +1,6 @@
 use crate::diagnostic_emitter::MosResult;
 use crate::impl_request_handler;
-use crate::lsp::{to_line_col, to_location, to_range, LspContext, RequestHandler};
+use crate::lsp::{to_line_col, to_location, to_path, to_range, LspContext, RequestHandler};
 use itertools::Itertools;
 use lsp_types::request::{DocumentHighlightRequest, GotoDefinition, References};
 use lsp_types::{
@@ -35,12 +35,7 @@ impl RequestHandler<GotoDefinition> for GoToDefinitionHandler {
                 let tree = ctx.tree.as_ref().unwrap();
                 let origin = def.try_get_usage_containing(
                     tree,
-                    &params
-                        .text_document_position_params
-                        .text_document
-                        .uri
-                        .to_file_path()
-                        .unwrap(),
+                    &to_path(&params.text_document_position_params.text_document.uri),
                     to_line_col(&params.text_document_position_params.position),
                 );
                 let origin = origin.map(|dl| tree.code_map.look_up_span(dl.span));
@@ -73,12 +68,7 @@ impl RequestHandler<References> for FindReferencesHandler {
         let codegen = codegen.lock().unwrap();
         let analysis = codegen.analysis();
         let defs = analysis.find_filter(
-            params
-                .text_document_position
-                .text_document
-                .uri
-                .to_file_path()
-                .unwrap(),
+            to_path(&params.text_document_position.text_document.uri),
             to_line_col(&params.text_document_position.position),
             |ty| matches!(ty, DefinitionType::Symbol(_)),
         );
